@@ -54,6 +54,14 @@ CHECKS = {
         text="Solver-decided within bounds, kernel level, not a proof. convert_trivia_untyped / convert_verbatim_untyped / convert_literal emit the token / node text unchanged for every text of up to N code points and any kind. strip_trailing_whitespace versus literal bytes: for s = p.t.q (t any token text with non-blank first/last character) strip(s) contains t with at most the blanks directly before a line feed removed; that t itself survives is false - the KNOWN FINDING (post-processing is literal-blind; two classes, replayed through format_content, listed in known_findings.json) - and any other change of t is reported as a new violation.",
         note="Trusted: mirsym encoder; std string contracts; Doc contracts. Typst's dedent rule on re-parse, convert_raw and lexing of numbers/identifiers are outside.",
         ref="DESIGN.md §5 C10"),
+    'C07': dict(
+        text="Solver-decided within bounds, mechanism-complete, not a proof. Marking: compute_no_format_impl over every sequence of up to K children (4 quick / 5 thorough) with symbolic kinds and a symbolic 'contains @typstyle off' per comment: a child is marked iff it is a directive comment or the first sibling after one that is neither comment, whitespace nor hash; has_comment iff some child is a comment; recursion exactly into unmarked non-comment children. Consumption: convert_expr (all expression kinds), convert_pattern, convert_math, convert_code_block with the mark symbolic: marked => exactly text(source text of the node), nothing else converted; unmarked => ordinary conversion. Structural: convert_expr is the only caller of convert_expr_impl.",
+        note="Trusted: mirsym encoder; typst-syntax and HashMap contracts. That every syntactic position reaches one of the four entry points and the renderer's handling of multi-line text atoms are outside. Counterexamples confirmed on a native corpus of directive placements.",
+        ref="DESIGN.md §5 C07"),
+    'C12': dict(
+        text="Solver-checked data flow over the real MIR, complete over the nest() sites of this run's dump, not a proof of rendering. Every function calling DocBuilder::nest/align/hang/indent or reading Config::tab_spaces is enumerated from the dump; for each nest() site the backward slice of the offset (copies, casts, constant arithmetic, parameters pushed to all callers) is translated to a bit-vector term and z3 shows offset = T as isize for all T in [0,2^31); align/hang only in comment.rs and the source-indent nest in partial.rs (exempt); values read from tab_spaces flow only into nest offsets; no store into PrettyPrinter::config after construction; --tab-width maps to tab_spaces (to_config MIR).",
+        note="Trusted: rustc MIR dump; pretty's nest semantics; literal blanks inside text atoms are not examined. Counterexamples confirmed natively by comparing leading blanks for tab_spaces 1..8.",
+        ref="DESIGN.md §5 C12"),
 }
 
 NOT_APPLICABLE = {
